@@ -121,13 +121,62 @@ def descLess {α : Type} (ds : List (Desc α)) (item1 item2 : α) : Bool :=
 def sortBySortDescriptors {α : Type} (ds : List (Desc α)) (input : List α) : List α :=
   sort (descLess ds) input
 
-/-- `SortedListBySortDescriptors(ds, input...)` / `builder.ToSortedList(input...)`:
-    `result := append(input[:0:0], input...)` is a fresh copy (capacity 0 forces a new backing array),
-    the copy is sorted in place and returned.  Returns (result, content of `input` afterwards). -/
+/-! ### a minimal slice heap, for "without modifying the input" -/
+
+/-- a Go slice header: backing array id, offset, length, capacity -/
+structure Slice where
+  arr : Nat
+  off : Nat
+  len : Nat
+  cap : Nat
+
+/-- the backing arrays -/
+abbrev Heap (α : Type) := List (List α)
+
+/-- the elements a slice denotes -/
+def Heap.read {α : Type} (h : Heap α) (s : Slice) : List α :=
+  ((h.getD s.arr []).drop s.off).take s.len
+
+/-- overwrite the `s.len` elements of slice `s` by `xs` -/
+def Heap.write {α : Type} (h : Heap α) (s : Slice) (xs : List α) : Heap α :=
+  let a := h.getD s.arr []
+  h.set s.arr (a.take s.off ++ xs ++ a.drop (s.off + s.len))
+
+/-- `s[:0:0]` -/
+def Slice.emptyNoCap (s : Slice) : Slice := { s with len := 0, cap := 0 }
+
+/-- `s[:0]` — capacity retained; NOT what the code does, used only to show that the capacity matters -/
+def Slice.emptyKeepCap (s : Slice) : Slice := { s with len := 0 }
+
+/-- `append(s, xs...)`: in place when the capacity suffices, else a fresh backing array (Go's growth
+    policy only makes the new capacity larger, which nothing here depends on). -/
+def Heap.append {α : Type} (h : Heap α) (s : Slice) (xs : List α) : Heap α × Slice :=
+  if s.len + xs.length ≤ s.cap then
+    (h.write ⟨s.arr, s.off + s.len, xs.length, 0⟩ xs, { s with len := s.len + xs.length })
+  else
+    (h ++ [h.read s ++ xs], ⟨h.length, 0, s.len + xs.length, s.len + xs.length⟩)
+
+/-- `Sort(fn, s)` on the heap: in place -/
+def sortH {α : Type} (fn : α → α → Bool) (h : Heap α) (s : Slice) : Heap α :=
+  h.write s (sort fn (h.read s))
+
+/-- `SortedListBySortDescriptors(ds, input...)`:
+    `result := append(input[:0:0], input...); SortBySortDescriptors(ds, result); return result` -/
+def sortedListH {α : Type} (ds : List (Desc α)) (h : Heap α) (input : Slice) : Heap α × Slice :=
+  let (h, result) := h.append input.emptyNoCap (h.read input)
+  (sortH (descLess ds) h result, result)
+
+/-- the aliasing variant `append(input[:0], input...)` (for the theorem that it WOULD modify the input) -/
+def sortedListAliasH {α : Type} (ds : List (Desc α)) (h : Heap α) (input : Slice) : Heap α × Slice :=
+  let (h, result) := h.append input.emptyKeepCap (h.read input)
+  (sortH (descLess ds) h result, result)
+
+/-- `SortedListBySortDescriptors(ds, input...)` / `builder.ToSortedList(input...)` on a heap that holds
+    just the caller's slice.  Returns (result, content of `input` afterwards). -/
 def sortedListBySortDescriptors {α : Type} (ds : List (Desc α)) (input : List α) : List α × List α :=
-  let result := input            -- the copy
-  let result := sortBySortDescriptors ds result
-  (result, input)
+  let s : Slice := ⟨0, 0, input.length, input.length⟩
+  let (h, result) := sortedListH ds [input] s
+  (h.read result, h.read s)
 
 /-! ## stream.go / streamForInterface.go -/
 
